@@ -36,18 +36,17 @@ for w in range(1, 33):
 # ---- group loops and 8-group callee contracts (contracts/bitpack.ovl) -------------------------------
 G = dict(overlays=OVL, harness='harness/C08/bitpack.c', **SRC)
 JOBS += [
-    # C08: the 8-group decoder for ANY width byte 0..255 (the width is not validated by its callers);
-    # the contract domain 0..255 is split into ranges
+    # C08: the 8-group decoder on its domain 0..32 (every caller rejects wider widths since 5d4c4fc / cbbbeed);
+    # 33..63 is kept as an extra range
 ] + [
     dict(name='c08_bitunpack8_32_w%d_%d' % (lo, hi), prop='C08', entry='h_bitunpack8_32', enforce='carquet_bitunpack8_32',
          defines=['CQV_U8_LO=%d' % lo, 'CQV_U8_HI=%d' % hi],
          unwindset=['carquet_bitunpack8_32.0:%d' % (hi // 8 + 3), 'carquet_bitunpack8_32.1:9'], loop_contracts=False,
          functions=['carquet_bitunpack8_32'] + ['carquet_bitunpack8_%dbit' % w for w in range(1, 9)],
-         wip=(hi > 63), tier='thorough' if hi > 63 else 'quick', timeout=900 if hi > 63 else 600,
-         note=('FINDING F1: widths >= 64 (width byte is unvalidated input) -> `1ULL << bit_width` and `extracted << bits_in_buffer` '
-               'shift by >= 64 (UB); native: /tmp/bitpack/demo_width64.c via carquet_rle_decode_all') if hi > 63 else '',
-         est_s=300 if hi > 63 else 40, **G)
-    for lo, hi in [(0, 32), (33, 63), (64, 255)]
+         wip=False, est_s=40,
+         note='' if hi <= 32 else 'extra: outside the contract domain 0..32 (callers reject > 32 since 5d4c4fc/cbbbeed); no UB and reads only bit_width bytes up to width 63; widths >= 64 shift by >= 64 (former finding F1, now excluded by every caller)',
+         **G)
+    for lo, hi in [(0, 32), (33, 63)]
 ] + [
     dict(name='c08_unpack8_safe_w0_32', prop='C08', entry='h_unpack8_safe_0_32', unwind=9, loop_contracts=False,
          functions=['carquet_bitunpack8_32'] + ['carquet_bitunpack8_%dbit' % w for w in range(1, 9)],
